@@ -321,23 +321,45 @@ def main(ctx, replay):
     cfgs = [gen_config(rng, ci) for ci in range(n_cfg)]
     # loader fact: references whose value is empty must make loadAuth fail (configuration refused)
     loadfail = []
-    for k, kind in enumerate(["env-empty", "env-missing", "file-empty", "file-blank"]):
-        c = gen_config(rng, 1000 + k)
-        name = "VERIF_C11_EMPTY_%d" % k
-        if kind == "env-empty":
-            c["env"][name] = ""
-            ref = "env:" + name
-        elif kind == "env-missing":
-            ref = "env:" + name + "_UNSET"
-        elif kind == "file-empty":
-            c["files"]["empty%d" % k] = L.hx("")
-            ref = "file:__FILE_empty%d__" % k
-        else:
-            c["files"]["empty%d" % k] = L.hx(" \n\t\n")
-            ref = "file:__FILE_empty%d__" % k
-        c["text"] = c["text"].replace('grpc_listen "__GRPC__"', 'grpc_listen "__GRPC__"\n  auth token %s' % q(ref), 1)
-        c["_kind"] = kind
-        loadfail.append(c)
+    k = 0
+    for kind in ["env-empty", "env-missing", "file-empty", "file-blank"]:
+        # the unloadable reference sits in the global pull_api block, in admin_api, alone in a route's pull block, or after a loadable token there
+        for pos in ["global", "admin", "route-only", "route-second"]:
+            k += 1
+            c = gen_config(rng, 1000 + k)
+            name = "VERIF_C11_EMPTY_%d" % k
+            if kind == "env-empty":
+                c["env"][name] = ""
+                ref = "env:" + name
+            elif kind == "env-missing":
+                ref = "env:" + name + "_UNSET"
+            elif kind == "file-empty":
+                c["files"]["empty%d" % k] = L.hx("")
+                ref = "file:__FILE_empty%d__" % k
+            else:
+                c["files"]["empty%d" % k] = L.hx(" \n\t\n")
+                ref = "file:__FILE_empty%d__" % k
+            if pos == "global":
+                c["text"] = c["text"].replace('grpc_listen "__GRPC__"', 'grpc_listen "__GRPC__"\n  auth token %s' % q(ref), 1)
+            elif pos == "admin":
+                c["text"] = c["text"].replace("admin_api {\n", "admin_api {\n  auth token %s\n" % q(ref), 1)
+            else:
+                r0 = c["routes"][0]
+                head = "    path %s" % q(r0["endpoint"])
+                extra = ("\n    auth token %s" % q("raw:good-route-token-%d" % k) if pos == "route-second" and not r0["tokens"] else "")
+                # route-only: the unloadable reference is the route's first token; route-second: a loadable one precedes it
+                if pos == "route-only":
+                    c["text"] = c["text"].replace(head, head + "\n    auth token %s" % q(ref), 1)
+                else:
+                    lines_r = c["text"].split("\n")
+                    i0 = lines_r.index(head)
+                    j = i0 + 1
+                    while j < len(lines_r) and lines_r[j].startswith("    auth token"):
+                        j += 1
+                    ins = ([("    auth token %s" % q("raw:good-route-token-%d" % k))] if j == i0 + 1 else []) + ["    auth token %s" % q(ref)]
+                    c["text"] = "\n".join(lines_r[:j] + ins + lines_r[j:])
+            c["_kind"] = kind + "@" + pos
+            loadfail.append(c)
     inputs = []
     all_reqs = []
     for c in cfgs:
@@ -383,7 +405,12 @@ def main(ctx, replay):
         evaluations += 1
         if not co["compile_ok"]:
             continue   # refused even earlier
-        if co.get("empty_loaded") or not co.get("load_err") or co.get("rows"):
+        if co.get("started_anyway"):
+            col.add("unloadable-secret-started:" + c["_kind"], (0, 0),
+                    "a token reference that cannot be loaded (%s: %s) did not stop the start: the authorizers were built without it, so the "
+                    "listener it was meant to protect is served on other credentials or on none" % (c["_kind"], co.get("load_err")),
+                    {"kind": "program", "case": {"config": c["text"], "env": c["env"]}, "observed": {k: co.get(k) for k in ("load_err", "started_anyway", "global", "routes")}})
+        elif co.get("empty_loaded") or not co.get("load_err") or co.get("rows"):
             col.add("loader-empty-secret:" + c["_kind"], (0, 0), "a secret reference with an empty value (%s) was loaded instead of being refused" % c["_kind"],
                     {"kind": "program", "case": {"config": c["text"], "env": c["env"]}, "observed": {k: co.get(k) for k in ("load_err", "empty_loaded", "global")}})
         else:
